@@ -185,6 +185,28 @@ def _notes(h: ast.ExceptHandler):
     return out
 
 
+def _handler_cannot_mask(ctx, f, h: ast.ExceptHandler, label: str) -> None:
+    """Whatever the handler does before it re-raises must not be able to raise itself for arbitrary
+    values (that would REPLACE the model's error): formatting with !r / !s or no conversion is total,
+    a format specification (`{v:>12}`), a subscript (`names[key]`), arithmetic or an unknown call on
+    run-time values is not."""
+    bad = []
+    for n in ast.walk(ast.Module(body=h.body, type_ignores=[])):
+        if isinstance(n, ast.FormattedValue) and n.format_spec is not None:
+            bad.append((n, f"format specification in `{norm(n)[:50]}` (TypeError for lists, arrays, None)"))
+        elif isinstance(n, ast.Subscript) and isinstance(n.ctx, ast.Load):
+            bad.append((n, f"lookup `{norm(n)[:50]}` (KeyError / IndexError)"))
+        elif isinstance(n, ast.BinOp) and isinstance(n.op, (ast.Mod, ast.Div, ast.FloorDiv)):
+            bad.append((n, f"`{norm(n)[:50]}`"))
+        elif isinstance(n, ast.Call):
+            fn = norm(n.func)
+            last = fn.split(".")[-1]
+            total = last in ("add_note", "items", "keys", "values", "exception", "error", "warning", "info", "debug", "repr", "str", "type", "format_exc") or fn in ("repr", "str", "type", "len")
+            if not total:
+                bad.append((n, f"call `{norm(n)[:50]}`"))
+    ctx.check(not bad, f.qual + f"#handler-total:{label}", "the handler only formats with !r / !s and adds notes: it cannot replace the original error" if not bad else f"the handler can raise before it re-raises - {bad[0][1]}: the model's exception (type, message, notes) would be replaced", where=f, node=bad[0][0] if bad else h)
+
+
 def r3_annotation_present(ctx):
     """ModelGroup.run's handler adds a note naming the group (self._name) and the model (model.name); _run_single_pipeline's handler notes every (key, value) of the run's parameters; fitness notes the decision vector; each then re-raises the same exception."""
     f = ctx.func("pyxel.pipelines.model_group:ModelGroup.run")
@@ -194,6 +216,8 @@ def r3_annotation_present(ctx):
     else:
         hs = [h for h in t.handlers if handler_catches_all(h)]
         ok = len(hs) == 1 and hs[0].name is not None
+        if hs:
+            _handler_cannot_mask(ctx, f, hs[0], f.name)
         notes = _notes(hs[0]) if ok else []
         txt = " ".join(norm(expand(f, n.args[0])) for n in notes if n.args)
         lp = enclosing_loop(t)
@@ -211,6 +235,8 @@ def r3_annotation_present(ctx):
     else:
         hs = [h for h in t.handlers if handler_catches_all(h)]
         ok = len(hs) == 1 and hs[0].name is not None
+        if hs:
+            _handler_cannot_mask(ctx, f, hs[0], f.name)
         notes = _notes(hs[0]) if ok else []
         per_item = False
         for n in notes:
@@ -230,6 +256,8 @@ def r3_annotation_present(ctx):
     else:
         hs = [h for h in t.handlers if handler_catches_all(h)]
         ok = len(hs) == 1 and hs[0].name is not None
+        if hs:
+            _handler_cannot_mask(ctx, f, hs[0], f.name)
         notes = _notes(hs[0]) if ok else []
         txt = " ".join(norm(n.args[0]) for n in notes if n.args)
         okn = ok and f.params[1] in txt
